@@ -422,6 +422,29 @@ func treeList(g *core.G, k int) (ns []*core.N, flags []string) {
 			rec(x)
 		}
 	}
+	// two inner nodes with the same name (open finding F60 with a translate table; fine otherwise)
+	if g.Chance(0.05) {
+		var inner []*core.N
+		var col func(x *core.N, isRoot bool)
+		col = func(x *core.N, isRoot bool) {
+			if !isRoot && len(x.Kids) > 0 {
+				inner = append(inner, x)
+			}
+			for _, kk := range x.Kids {
+				col(kk, false)
+			}
+		}
+		col(ns[g.Intn(len(ns))], true)
+		if len(inner) >= 2 {
+			a := inner[g.Intn(len(inner))]
+			b := inner[g.Intn(len(inner))]
+			if a != b {
+				a.Name, b.Name = "Dup", "Dup"
+				a.E.Sup, b.E.Sup = -1, -1
+				flags = append(flags, "dupinner")
+			}
+		}
+	}
 	// supports on single-child inner nodes too (the shared generator gives them a length only)
 	var sing func(x *core.N)
 	sing = func(x *core.N) {
